@@ -73,9 +73,19 @@ def run_ops(pname, ops):
                         o = {'skip': True}
                     else:
                         r = op[2]
-                        val = fp(r[1]) if r[0] == 'res' else jsonrpc.RPCError(r[1], fp(r[2]))
-                        m = received[op[1]].send_result(val)
-                        o = {'msg': None if m is None else list(m)}
+                        if r[0] == 'bad':
+                            # a result JSON cannot encode: send_result refuses it, and the caller (the session) supplies
+                            # an internal error in its place - exactly what RPCSession._throttled_request does
+                            try:
+                                m = received[op[1]].send_result({1, 2})
+                                o = {'msg': None if m is None else list(m), 'unencodable_accepted': True}
+                            except jsonrpc.ProtocolError:
+                                m = received[op[1]].send_result(jsonrpc.RPCError(jsonrpc.JSONRPC.INTERNAL_ERROR, 'internal server error'))
+                                o = {'msg': None if m is None else list(m)}
+                        else:
+                            val = fp(r[1]) if r[0] == 'res' else jsonrpc.RPCError(r[1], fp(r[2]))
+                            m = received[op[1]].send_result(val)
+                            o = {'msg': None if m is None else list(m)}
                 elif kind == 'abandon':
                     # the caller stops waiting (e.g. its sent_request_timeout expired): the future is cancelled,
                     # the entry stays in the table until a response arrives
@@ -131,6 +141,8 @@ def opt_bytes(b):
 
 def respval_term(r):
     fp = jv.from_plain
+    if r[0] == 'bad':      # refused, then answered with the internal error
+        r = ['err', -32603, 'internal server error']
     return f"(RResult {jv.json_term(fp(r[1]))})" if r[0] == 'res' else f"(RError {jv.json_term(r[1])} {jv.text_term(fp(r[2]))})"
 
 
